@@ -13,9 +13,10 @@
    Proved part: the impl model of the v1 page reader (Impl/RPages.v: read_data_page + the page part of
    read_col) reads every v1 data page of every layout (incl. DELTA_BINARY_PACKED) back to the page's
    denotation (C03_fp_read_page_v1_spec_partial), and so does the impl model of read_data_page_v2 with its
-   in-place fast paths for every v2 page (C03_fp_read_page_v2_spec_partial).  Missing: the page loop of
-   read_col over a chunk (dictionary replacement, `num` bookkeeping), the categorical / row-filter variants,
-   and the native decoders themselves (represented by the specification decoders; C11 proves the native
+   in-place fast paths for every v2 page (C03_fp_read_page_v2_spec_partial), and the impl model of the page
+   loop of read_col returns the denotation of every chunk (C03_fp_read_chunk_spec_partial).  Missing: the
+   row-group/file level of the reader (api.py: schema -> dtypes, pre-allocation, row-group iteration), the
+   categorical / row-filter variants, and the native decoders themselves (represented by the specification decoders; C11 proves the native
    hybrid reader equal to the specification for widths <= 24).  For the
    missing parts the reader is tied to the specification by the per-run oracle only
    (harness/props/C03.py: fastparquet's result = table_of on every generated file).                *)
@@ -24,7 +25,7 @@ From Coq Require Import NArith ZArith List Bool Arith.
 From Pq Require Import Base.Bytes Base.ListX Codec.Hybrid Thrift.Compact Format.Phys Format.Meta Format.Page
   Format.ChunkLayout Format.File Format.Enc
   Impl.RPages Proofs.HybridProofs Proofs.FormatCodecProofs Proofs.FormatPageProofs Proofs.FormatChunkProofs Proofs.RPagesProofs
-  Proofs.FormatFileProofs.
+  Proofs.FormatFileProofs Impl.RChunk Proofs.RChunkProofs.
 Import ListNotations.
 Open Scope list_scope.
 Open Scope N_scope.
@@ -114,6 +115,26 @@ Example C03_v2_delta_with_nulls_refused :
              10 10 [3; 1; 128; 1; 4; 1; 10; 0; 0; 0]
   = RBad "AssertionError: null delta-int not implemented".
 Proof. vm_compute. reflexivity. Qed.
+
+(* CHUNK level: impl model of the page loop of core.read_col (Impl/RChunk.v rd_chunk: driven by the row
+   count, dictionary pages replace `dic`, v1 pages through read_data_page + scatter, v2 pages through
+   read_data_page_v2, `num` advanced by num_values) over the bytes of ANY chunk the specification encoder
+   writes - any number of pages, v1 and v2 mixed, several dictionary pages, PLAIN fallback, any codec -
+   returns exactly the cells the chunk denotes. *)
+Theorem C03_fp_read_chunk_spec_partial :
+  forall (compress : Z -> bytes -> bytes) (decompress : Z -> N -> bytes -> option bytes),
+  (forall codec b, decompress codec (lenN b) (compress codec b) = Some b) ->
+  forall inplace cd codec rows its clock dict num acc contents,
+  Forall (item_wf cd) its ->
+  Forall (fun it => phdr_wf (fst (enc_item compress cd codec it)) = true) its ->
+  Forall (item_reader_ok inplace cd) its ->
+  items_contents cd dict its = Some contents ->
+  (length (concat (map (item_bytes compress cd codec) its)) <= length clock)%nat ->
+  rows = num + sumN (map item_nvals its) ->
+  rd_chunk decompress clock inplace cd codec rows dict (concat (map (item_bytes compress cd codec) its)) num acc
+  = ROk (rev acc ++ concat (map content_cells contents)).
+Proof. exact rd_chunk_spec. Qed.
+Print Assumptions C03_fp_read_chunk_spec_partial.
 
 (* why the `selfmade` guard of the raw-codes shortcut matters (appendix B mutant "drop `and selfmade`"):
    with the shortcut taken on a foreign page of index width 8 the model does not return the denotation *)
